@@ -70,4 +70,33 @@ def listRoot (E : Elem T H) (A : HashAlg H) (mixIn : H → Nat → H) (N : Nat) 
 def vectorRoot (E : Elem T H) (A : HashAlg H) (N : Nat) (xs : List T) : H :=
   merk A (limitDepth (chunkLimit E N)) (chunksOf E xs)
 
+/-! ## Closed form for a sequence of equal elements
+
+`listRoot … (List.replicate n v)` cannot be *run* for `n = 2^43`. The chunk sequence of `n` copies
+of `v` is `a = n / pf` copies of one full chunk `F`, then possibly one partial chunk, then zero
+chunks, and its merkleization can be computed by doubling. `Proofs/RepRoot.lean` proves
+`repRoot = listRoot ∘ replicate`; the driver uses `repRoot` for collections too long to materialise. -/
+
+/-- `d`-fold doubling of a chunk: the root of a full subtree of depth `d` all of whose chunks are `F`. -/
+def fullAt (A : HashAlg H) (F : H) : Nat → H
+  | 0 => F
+  | d+1 => let h := fullAt A F d; A.h2 h h
+
+/-- root of the subtree of depth `d` whose chunks are `a` copies of `F`, then `tail` (if any), then
+zero chunks (`a + (1 if tail) ≤ 2^d`). -/
+def repMerk (A : HashAlg H) (F : H) (tail : Option H) : Nat → Nat → H
+  | 0, a => if a ≥ 1 then F else tail.getD A.zero
+  | d+1, a =>
+    if a ≥ 2 ^ d then A.h2 (fullAt A F d) (repMerk A F tail d (a - 2 ^ d))
+    else A.h2 (repMerk A F tail d a) (zeroHash A d)
+
+/-- `hash_tree_root` of `List[T, N]` holding `n` copies of `v`, without building the list. -/
+def repRoot (E : Elem T H) (A : HashAlg H) (mixIn : H → Nat → H) (N n : Nat) (v : T) : H :=
+  let pfk := E.pf.getD 1
+  let F : H := match E.pf with
+    | some k => E.packHash (List.replicate k v)
+    | none => E.leafHash v
+  let tail : Option H := if n % pfk = 0 then none else some (E.packHash (List.replicate (n % pfk) v))
+  mixIn (repMerk A F tail (limitDepth (chunkLimit E N)) (n / pfk)) n
+
 end Milhouse.Spec
